@@ -17,6 +17,31 @@ use crate::{
     DefaultImpl, Error, Result, TypeId, TypeSpace,
 };
 
+/// Can the integer type named `itype` hold `value`? (Bounds stated in a schema
+/// are checked where the schema is converted; this is about values that reach
+/// an integer type from inside a compound default.)
+fn integer_value_fits(itype: &str, value: &serde_json::Value) -> bool {
+    let (min, max): (i128, i128) = match itype.strip_prefix(STD_NUM_NONZERO_PREFIX).unwrap_or(itype) {
+        "i8" | "I8" => (i8::MIN as i128, i8::MAX as i128),
+        "u8" | "U8" => (0, u8::MAX as i128),
+        "i16" | "I16" => (i16::MIN as i128, i16::MAX as i128),
+        "u16" | "U16" => (0, u16::MAX as i128),
+        "i32" | "I32" => (i32::MIN as i128, i32::MAX as i128),
+        "u32" | "U32" => (0, u32::MAX as i128),
+        "i64" | "I64" => (i64::MIN as i128, i64::MAX as i128),
+        "u64" | "U64" => (0, u64::MAX as i128),
+        _ => return true,
+    };
+    let value = match (value.as_u64(), value.as_i64()) {
+        (Some(value), _) => value as i128,
+        (_, Some(value)) => value as i128,
+        // Not an integer at all: reported by the caller.
+        (None, None) => return true,
+    };
+    let nonzero = itype.starts_with(STD_NUM_NONZERO_PREFIX);
+    min <= value && value <= max && !(nonzero && value == 0)
+}
+
 // Implementations for "stock" default functions so we don't litter the
 // namespace with many that are effectively identical.
 impl From<&DefaultImpl> for TokenStream {
@@ -320,6 +345,9 @@ impl TypeEntry {
             },
             // Note that min and max values are handled already by the
             // conversion routines since we have those close at hand.
+            TypeEntryDetails::Integer(itype) if !integer_value_fits(itype, default) => {
+                Err(Error::invalid_value())
+            }
             TypeEntryDetails::Integer(itype) => match (default.as_u64(), default.as_i64()) {
                 (None, None) => Err(Error::invalid_value()),
                 (Some(0), _) => Ok(DefaultKind::Intrinsic),
